@@ -96,6 +96,57 @@ def oracle_c09(tier, seed):
                     V("summary-alias-order: alias list order differs from macro order")
             except Exception as e:
                 V(f"summary-raises: {type(e).__name__}: {e}")
+    # ---- histories: rendering a simulation-code patch in between must not change the slots / identifiers of the network
+    import subprocess, sys, json as _json
+    for label, fac in c09_networks():
+        if label not in ("ions", "two-spellings"):
+            continue
+
+        def V(what):
+            viol.append({"property": "C09", "network": label, "backend": "cvode/dense", "what": what, "signature": f"C09:{label}:{what.split(':')[0]}"})
+        try:
+            from naunet.patches import patch_factory
+            net = fac()
+            f1 = render(net, "cvode", "dense", "cpu", jac_pattern=False)
+            al1 = [s.alias for s in net.species]
+            d = tempfile.mkdtemp(prefix="vf_enzo_")
+            try:
+                with contextlib.redirect_stdout(io.StringIO()):
+                    patch_factory("enzo", "cpu").render(net, path=Path(d))
+                enzo = {fn: open(os.path.join(r_, fn), errors="replace").read() for r_, _, fs in os.walk(d) for fn in fs}
+            finally:
+                shutil.rmtree(d, ignore_errors=True)
+            f2 = render(net, "cvode", "dense", "cpu", jac_pattern=False)
+            cases += 1
+            if [s.alias for s in net.species] != al1:
+                V(f"patch-changes-aliases: aliases after rendering the Enzo patch {[s.alias for s in net.species][:6]} != before {al1[:6]}")
+            for fn in ("include/naunet_macros.h", "python/pynaunet_model/constant_indexes.py"):
+                if f1[fn] != f2[fn]:
+                    V(f"patch-changes-macros: {fn} rendered after the Enzo patch differs from the one rendered before")
+            hdr = enzo.get("naunet_enzo.h", "")
+            used = set(re.findall(r"\bIDX_(?!ELEM_)\w+", "\n".join(enzo.values())))
+            declared = set(re.findall(r"^#define (IDX_(?!ELEM_)\S+)", f1["include/naunet_macros.h"], flags=re.M))
+            if used - declared - {"IDX_TGAS"}:
+                V(f"patch-uses-undefined-slots: {sorted(used - declared)[:5]} are used by the patch but not defined in naunet_macros.h")
+        except Exception as e:
+            V(f"patch-history-raises: {type(e).__name__}: {e}")
+    # ---- the slot order is the same in every process (hash seeds): artefacts written by separate invocations agree
+    for label in ("ions", "ice-and-grains"):
+        orders = {}
+        for hs in ("0", "1", "2"):
+            env = dict(os.environ, PYTHONHASHSEED=hs)
+            p = subprocess.run([sys.executable, "-m", "contracts.native_ids", "--order", label], capture_output=True, text=True, env=env,
+                               cwd=os.path.dirname(os.path.dirname(os.path.abspath(__file__))))
+            cases += 1
+            if p.returncode != 0:
+                viol.append({"property": "C09", "network": label, "what": f"order-child-fails: {p.stderr.strip().splitlines()[-1:]}", "signature": f"C09:{label}:order-child-fails"})
+                continue
+            orders[hs] = _json.loads(p.stdout.strip().splitlines()[-1])
+        if len({tuple(v) for v in orders.values()}) > 1:
+            a, b = list(orders.values())[:2]
+            k = next(i for i, (x, y) in enumerate(zip(a, b)) if x != y)
+            viol.append({"property": "C09", "network": label, "what": f"slot-order-differs-between-processes: position {k} is {a[k]} under one hash seed and {b[k]} under another",
+                         "signature": f"C09:{label}:slot-order-differs-between-processes"})
     fresh_species_state()
     return {"cases": cases, "distinct": cases, "violations": viol, "samples": [{"networks": [l for l, _ in c09_networks()]}],
             "bound": "6 naming conventions (multiply charged ions, ortho/para labels, ice + grains with charge states, excited / cyclic species, two spellings, upper-case lists) x {cvode dense, odeint}",
@@ -146,6 +197,8 @@ def oracle_c08(tier, seed):
          {"HE": "He", "SI": "Si", "CL": "Cl", "MG": "Mg", "NA": "Na", "FE": "Fe", "E": "e"}, {"surface_prefix": "#"}),
         ("uppercase-G", ["H", "HE", "C", "N", "O", "SI", "S", "CL", "MG", "NA", "FE", "E"], ["CRP", "PHOTON", "o", "p"],
          {"HE": "He", "SI": "Si", "CL": "Cl", "MG": "Mg", "NA": "Na", "FE": "Fe", "E": "e"}, {"surface_prefix": "G"}),
+        # a user element list with NO pseudo elements / labels: nothing but the listed symbols may be accepted
+        ("uppercase-no-labels", ["H", "HE", "C", "N", "O", "SI", "S", "CL", "MG", "NA", "FE", "E"], [], {}, {"surface_prefix": "#"}),
     ]
     rnd = random.Random(8 + seed)
     for cname, elements, pseudo, repl, kw in configs:
@@ -155,7 +208,7 @@ def oracle_c08(tier, seed):
             Species.set_known_pseudoelements(list(pseudo))
             Species._replacement = dict(repl)
             symbols = [e for e in elements if e != "E"]
-            labels = ["", "o", "p"]
+            labels = ["", "o", "p"] if pseudo else [""]
         else:
             symbols = [e for e in Species.default_elements if e not in ("e", "E")]
             labels = ["", "o", "p", "m"]
@@ -228,7 +281,7 @@ def oracle_c08(tier, seed):
                                  "what": f"grain-bookkeeping: {name}: group {sp.grain_group} count {dict(sp.element_count)} charge {sp.charge} is_atom {sp.is_atom}",
                                  "signature": f"C08:{cname}:grain-bookkeeping"})
         # names with a foreign character must be rejected
-        for bad in ["H2Q", "C?O", "xH2", "H2O!", "C.O"]:
+        for bad in ["H2Q", "C?O", "xH2", "H2O!", "C.O"] + (["Mg", "oH2", "pH3+", "HgO", "H2M", "CXO"] if (elements is not None and not pseudo) else []):
             cases += 1
             try:
                 Species(bad, **kw)
@@ -240,3 +293,15 @@ def oracle_c08(tier, seed):
     return {"cases": cases, "distinct": cases, "violations": viol, "samples": [{"configs": [c[0] for c in configs]}],
             "bound": "all names over 1 symbol and 200 sampled (quick) / all (thorough: up to 3 symbols) ordered symbol tuples with counts {none,2,10[,12]}, labels, surface prefix '#'/'G', charges -1..+2, default and upper-case-with-replacement lists",
             "rule": "each generated name is one case; composition, charge, phase, gas name, rewritten name, is_atom and mass number compared"}
+
+
+if __name__ == "__main__":
+    import sys, json, logging
+    logging.disable(logging.CRITICAL)
+    if len(sys.argv) == 3 and sys.argv[1] == "--order":
+        for label, fac in c09_networks():
+            if label == sys.argv[2]:
+                with contextlib.redirect_stdout(io.StringIO()), contextlib.redirect_stderr(io.StringIO()):
+                    net = fac()
+                    names = [s.name for s in net.species]
+                print(json.dumps(names))
